@@ -2736,13 +2736,20 @@ impl ModuleGraph {
   ) -> &'a ModuleSpecifier {
     const MAX_REDIRECTS: usize = 10;
     let mut redirected_specifier = specifier;
-    if let Some(specifier) = self.redirects.get(specifier) {
+    // an entry stored under a specifier is what a walk reaches for it, even
+    // when a redirect was also recorded for that specifier (redirect loops)
+    if let Some(specifier) = self.redirects.get(specifier)
+      && !self.module_slots.contains_key(redirected_specifier)
+    {
       // only allocate if there's a redirect
       let mut seen = HashSet::with_capacity(MAX_REDIRECTS);
       seen.insert(redirected_specifier);
       seen.insert(specifier);
       redirected_specifier = specifier;
       while let Some(specifier) = self.redirects.get(redirected_specifier) {
+        if self.module_slots.contains_key(redirected_specifier) {
+          break;
+        }
         if !seen.insert(specifier) {
           log::warn!(
             "An infinite loop of redirections detected.\n  Original specifier: {specifier}"
